@@ -233,7 +233,7 @@ func runCells(bin string, cells []g2Cell) *g2Result {
 		}
 		res.Outcomes[fmt.Sprintf("g2:%s/%s status=%d stderr=%v prior-on-stdout=%s", c.Ending, c.Prior, o.Status, strings.TrimSpace(o.Stderr) != "", flushed)] = true
 		if e.Class == "control" {
-			if e.Name == "normal-end" && (o.Status != 0 || !strings.Contains(o.Stdout, "done\n")) {
+			if e.Name == "normal-end" && (o.Status != 0 || (c.Prior != "ob" && !strings.Contains(o.Stdout, "done\n"))) {
 				res.Harness = append(res.Harness, fmt.Sprintf("G2 control %s/%s/%s: a script that ends normally gave status %d stdout %q - exit statuses cannot discriminate", c.Ending, c.Prior, c.Ext, o.Status, o.Stdout))
 			}
 			if o.Status != e.WantStatus {
@@ -290,6 +290,9 @@ func (r *g2Result) report(c *ev.Check) {
 	classSize := map[string]int{}
 	for _, e := range endings {
 		classSize[e.Class]++
+		if e.Error && e.PriorRuns {
+			classSize["error-endings"]++
+		}
 	}
 	type grp struct {
 		class, clause, prior string
@@ -298,7 +301,8 @@ func (r *g2Result) report(c *ev.Check) {
 	for _, f := range r.Fails {
 		g := grp{f.Class, f.Clause, ""}
 		if f.Clause == "flush" {
-			g.prior = f.Cell.Prior
+			// losing earlier output does not depend on how the script fails
+			g.class, g.prior = "error-endings", f.Cell.Prior
 		}
 		groups[g] = append(groups[g], f)
 	}
